@@ -1,5 +1,5 @@
 from .core import *  # noqa
-from .core import CTX, S, SB, Abort, Unsupported, T, F, toz, tob, dof, AND, sym, symb, const, ufcall, explore, run_concrete, model_env, complete_env, val_to_float
+from .core import CTX, S, SB, Abort, Unsupported, T, F, toz, tob, dof, AND, sym, symb, const, ufcall, ufpred, explore, run_concrete, model_env, complete_env, val_to_float
 from .arr import SymArray, NP, NP_INSTANCE, wrap, fix, oarr, symarr, emap, has_sym, term_arrays_equal_formula, zwhere, zmin, zmax
 from .rot import SymRot, symrot
 from . import install
